@@ -486,3 +486,44 @@ def inert_arguments(ctx, rng, ntrees=3):
                                                a_ if isinstance(a_, str) else [x for x in a_ if x not in b_][:4] or a_[:4], [x for x in b_ if isinstance(a_, str) or x not in a_][:4] or b_[:4]),
                                                {'pattern': p, 'flags': corr.flag_names(fv), 'variant': how, 'tree': sp})
     return n
+
+
+def trailing_newline_names(ctx):
+    """Entries whose names end in a line feed, beside their twins without it: a segment pattern (without `**`, where a
+    known finding lives) matches the whole name or not at all - walk == REALPATH matcher entry by entry, str and bytes,
+    also relative to a directory descriptor (descriptor 0 included).  Returns the number of evaluations."""
+    import trees
+    from wcmatch import glob as Gm, pathlib as PLm
+    n = 0
+    with trees.Tree(trees.NEWLINE_TREE) as T:
+        cands = sorted(T.entries())
+        fd = os.open(T.root, os.O_RDONLY)
+        saved0 = os.dup(0)
+        try:
+            os.dup2(fd, 0)           # the same directory as descriptor 0
+            for p in ('?', '[b]', 'b', 'c', '*', 'd?', '*/e', 'd*/e', 'sub/?', 'b*', '[bc]?', '*/?', 'd/e', 'sub/x', '@(b|c)', 'B'):
+                for fv in (0, Gm.EXTGLOB, Gm.MARK, Gm.IGNORECASE, Gm.DOTGLOB | Gm.NODIR):
+                    n += 1
+                    want = [c for c in cands if Gm.globmatch(c, p, flags=fv | Gm.REALPATH, root_dir=T.root)]
+                    thunks = [('root_dir', lambda: sorted(x.rstrip('/') for x in Gm.glob(p, flags=fv, root_dir=T.root))),
+                              ('bytes root_dir', lambda: sorted(x.decode().rstrip('/') for x in Gm.glob(p.encode(), flags=fv, root_dir=T.root.encode()))),
+                              ('dir_fd', lambda: sorted(x.rstrip('/') for x in Gm.glob(p, flags=fv, dir_fd=fd))),
+                              ('bytes pattern with dir_fd', lambda: sorted(x.decode().rstrip('/') for x in Gm.glob(p.encode(), flags=fv, dir_fd=fd))),
+                              ('dir_fd=0', lambda: sorted(x.rstrip('/') for x in Gm.glob(p, flags=fv, dir_fd=0))),
+                              ('Path.glob', lambda: sorted(os.path.relpath(str(x), T.root) for x in PLm.Path(T.root).glob(p, flags=fv & PLm.FLAG_MASK)))]
+                    runs = {}
+                    for how, th in thunks:
+                        try:
+                            runs[how] = th()
+                        except Exception as e:
+                            runs[how] = 'raised %s: %s' % (type(e).__name__, e)
+                    for how, got in runs.items():
+                        if got != want:
+                            ctx.counterexample('glob(%r, %s) via %s returns %r; the REALPATH matcher accepts %r (tree with names ending in a line feed)' % (
+                                p, corr.flag_names(fv), how, got, want), {'pattern': p, 'flags': corr.flag_names(fv), 'how': how, 'tree': trees.NEWLINE_TREE})
+                            break
+        finally:
+            os.dup2(saved0, 0)
+            os.close(saved0)
+            os.close(fd)
+    return n
